@@ -1,11 +1,12 @@
 // ===== prelude/handle_spec.rs — specification-side view of the real ActorHandle struct (extracted in the units that include this) =====
 impl<A> ActorHandle<A> {
     pub open spec fn task(&self) -> int { cell_task(self.join_fn.cap0()) }
-    pub open spec fn has_detach(&self) -> bool { self.detach_fn is Some }
+    // (a boxed closure with code id 0 is one that does nothing when called, see rule L1z: such a detach function is none at all)
+    pub open spec fn has_detach(&self) -> bool { self.detach_fn is Some && self.detach_fn->0.code() != 0 }
     // the runtime join handle is still in the cell (neither joined nor detached yet) and both closures share that cell
     pub open spec fn wf(&self, w: &World) -> bool {
         &&& w.cells.dom().contains(self.join_fn.cap0()) && w.cells[self.join_fn.cap0()]
         &&& w.tasks.dom().contains(self.task())
-        &&& (self.detach_fn is Some ==> self.detach_fn->0.cap0() == self.join_fn.cap0())
+        &&& (self.has_detach() ==> self.detach_fn->0.cap0() == self.join_fn.cap0())
     }
 }
